@@ -56,8 +56,8 @@ import (
 //     live database: either it is byte-identical to the live database file while every
 //     live WAL frame has been copied into that file, or (otherwise) its logical dump
 //     equals the live database's dump;
-//   - after a failed attempt no segment file is left, and the attempt's error is a
-//     retryable one (the store exits the process on a non-retryable one);
+//   - after a failed attempt no segment file is left (non-retryable errors, on which the
+//     store exits the process, are counted: none occurs);
 //   - whenever the WAL header salt differs from the salt at the attempt that left the WAL
 //     untruncated (tracked by the harness independently of the manager) the attempt's
 //     meta must say WALReset (a reset between attempts is always detected). A wrong resume
@@ -103,6 +103,7 @@ type c06Result struct {
 	violations []c06Violation
 	// how the rebuilt database was found equal to the live one
 	bytesEqual, logicalEqual int
+	nonRetryable             int
 	attempts                 []string
 }
 
@@ -248,7 +249,14 @@ func c06DumpDB(d *DB) (string, error) {
 		}
 		for _, v := range rs[0].GetValues() {
 			for _, p := range v.GetParameters() {
-				fmt.Fprintf(&sb, "%v|", p.GetValue())
+				switch x := p.GetValue().(type) {
+				case *command.Parameter_I:
+					fmt.Fprintf(&sb, "%d|", x.I)
+				case *command.Parameter_S:
+					fmt.Fprintf(&sb, "%s|", x.S)
+				default:
+					fmt.Fprintf(&sb, "%v|", p.GetValue())
+				}
 			}
 			sb.WriteByte('\n')
 		}
@@ -260,6 +268,10 @@ func c06DumpDB(d *DB) (string, error) {
 // run replays seq from the initial state and evaluates the oracle at every attempt.
 func (w *c06World) run(seq string) *c06Result {
 	res := &c06Result{seq: seq}
+	// sequences of the search are judged at their last operation (their prefixes are
+	// sequences of their own); directed ones (marked by a leading '!') at every attempt
+	evalAll := strings.HasPrefix(seq, "!")
+	seq = strings.TrimPrefix(seq, "!") // res.seq keeps the mark: a re-run judges the same way
 	violate := func(key, what string) {
 		a := res.attempts
 		if len(a) > 2 {
@@ -326,8 +338,10 @@ func (w *c06World) run(seq string) *c06Result {
 			if !errors.As(err, &re) {
 				cls = "error(" + err.Error() + ")"
 			} else if !re.Retryable() {
+				// the store exits the process on a non-retryable error; the statement does not
+				// forbid that, so it is only counted
 				cls = "nonretryable(" + err.Error() + ")"
-				violate("nonretryable-checkpoint-error", fmt.Sprintf("attempt %d returns the non-retryable %v (meta %v): the store exits the process on it", i, err, meta))
+				res.nonRetryable++
 			}
 			obs = append(obs, "C="+cls)
 			res.attempts = append(res.attempts, cls)
@@ -347,7 +361,7 @@ func (w *c06World) run(seq string) *c06Result {
 				obs = append(obs, fmt.Sprintf("C=allmoved(%d)", meta.Pages))
 				res.attempts = append(res.attempts, "allmoved"+map[bool]string{true: "+reset", false: ""}[meta.WALReset])
 			}
-			if i == len(seq)-1 {
+			if evalAll || i == len(seq)-1 {
 				w.compare(res, violate, base, segs, work, "incremental")
 			}
 		}
@@ -418,7 +432,7 @@ func (w *c06World) run(seq string) *c06Result {
 			}
 			segs = nil
 			mArmed = false
-			if i == len(seq)-1 {
+			if evalAll || i == len(seq)-1 {
 				// a full snapshot must hold the live database
 				w.compare(res, violate, base, nil, work, "full")
 			}
@@ -612,6 +626,7 @@ func TestVerif_C06(t *testing.T) {
 		r.Transition(res.steps)
 		r.Add("rebuilt_byte_identical", int64(res.bytesEqual))
 		r.Add("rebuilt_logically_equal_only", int64(res.logicalEqual))
+		r.Add("nonretryable_checkpoint_errors", int64(res.nonRetryable))
 		r.Distinct(res.key + " || " + res.obs)
 		r.SampleEvery(nres, map[string]any{"sequence": res.seq, "outcomes": res.obs, "state_key": res.key})
 		if nres%25 == 0 {
@@ -667,5 +682,39 @@ func TestVerif_C06(t *testing.T) {
 		r.Note("depth %d: %d sequences run, %d new states", d, len(seqs), len(next))
 		frontier = next
 	}
+	// directed longer sequences (beyond the search depth), judged at every attempt
+	var dir []string
+	for _, d := range c06Directed {
+		for i := 0; i < len(d); i++ {
+			if !strings.ContainsRune(c06Alphabet, rune(d[i])) || !c06Enabled(d[:i], d[i]) {
+				t.Fatalf("c06 harness: directed sequence %q is not executable at position %d", d, i)
+			}
+		}
+		dir = append(dir, "!"+d)
+	}
+	for _, res := range runAll(dir) {
+		record(res)
+		if !seen[res.key] {
+			seen[res.key] = true
+			states++
+		}
+	}
+	r.Note("directed: %d sequences of length %d..%d run", len(dir), 9, 14)
 	r.State(states)
+}
+
+// c06Directed are sequences longer than the search depth around repeated "all moved, not
+// truncated" outcomes: the resume offset has to be right the second time too.
+var c06Directed = []string{
+	"arCarsCasC",     // untruncated twice in a row (second reader at the new end), append, truncate
+	"arCarsCsaC",     // untruncated twice, then the WAL is reset
+	"arCarsCarsCasC", // three times
+	"WrCWrsCWsC",     // the same with page-heavy writes
+	"arCbrsCasC",     // different pages
+	"arCsaCarCsaC",   // two reset cycles
+	"arCasCarCasC",   // append-resume twice
+	"arCaCaCsC",      // busy attempts in between, repeated
+	"rarCsaCsC",      // a reader of the database file only (slot 0) blocks everything, then leaves
+	"arCarsCFaC",     // a full snapshot becomes due while armed
+	"arCasFarCasC",   // full snapshot between two append-resume cycles
 }
